@@ -132,8 +132,362 @@ def helper (tag : String) (args : List Sexp) (impl : Sexp) : Option Verdict :=
     pure (verdict agree holds (clsOf r.isNone) (pairFloats m))
   | _, _ => none
 
-/-- Component cases (part 2). -/
-def component (_tag : String) (_args : List Sexp) (_impl : Sexp) : Option Verdict := none
+/-! ## Component cases (part 2): witness recovery + legality + property clauses -/
+
+inductive Impl (σ : Type) where
+  | ok (height : Nat) (ev : List Bool) (pop : List σ)
+  | err (kind : String)
+  | panic
+
+def parseImpl {σ : Type} (sol? : Sexp → Option σ) : Sexp → Option (Impl σ)
+  | .atom "panic" => some .panic
+  | .list [.atom "e", .atom k] => some (.err k)
+  | .list [.atom "ok", h, ev, pop] => do
+    let h ← nat? h
+    let ev ← (← tagged? "ev" ev).mapM bool?
+    let pop ← (← tagged? "pop" pop).mapM sol?
+    pure (.ok h ev pop)
+  | _ => none
+
+def popOf {σ : Type} (sol? : Sexp → Option σ) (s : Sexp) : Option (List σ) := do
+  (← tagged? "pop" s).mapM sol?
+
+def unit01 (x : Float) : Bool := 0.0 ≤ x && x ≤ 1.0
+def bitsEq (a b : List Float) : Bool := a.map Float.toBits == b.map Float.toBits
+def sameShape {σ : Type} (a b : List (List σ)) : Bool := a.map List.length == b.map List.length
+def isZeroRng (seed : Sexp) : Bool := match seed with | .atom "zero" => true | _ => false
+
+/-- Generic verdict for a component whose `execute` either fails its guards or succeeds:
+`valid` = parameters inside the documented domain; `modelErr` = the model's guards reject;
+`okCase` computes (agree, failing-class or "-") from a successful output. -/
+def guarded {σ : Type} (valid modelErr : Bool) (impl : Impl σ)
+    (okCase : Nat → List Bool → List σ → Bool × String) : Verdict :=
+  match impl with
+  | .err _ => verdict modelErr (!valid) "err" (.atom (if modelErr then "err" else "ok"))
+  | .panic => verdict false (!valid) "panic" (.atom (if modelErr then "err" else "ok"))
+  | .ok h ev pop =>
+    let (agree, cls) := okCase h ev pop
+    verdict (agree && !modelErr) (cls == "-" || !valid) cls (.atom (if modelErr then "err" else "ok"))
+
+/-- Individuals whose solution was handed out mutably / newly created carry no objective value. -/
+def allUneval (ev : List Bool) : Bool := ev.all (!·)
+
+-- ---------------------------------------------------------------- rate-gated mutations
+def realMutation (kind : String) (p1 p2 rm : Float) (inp : List (List Float)) (impl : Impl (List Float)) : Verdict :=
+  let strengthValid := kind == "spread" || p1 ≥ 0.0
+  let rateValid := unit01 rm
+  let valid := strengthValid && rateValid
+  guarded valid (!valid) impl fun h ev out =>
+    let shape := sameShape inp out
+    let rmZero := rm == 0.0
+    let rmOne := rm == 1.0
+    let perSol := (inp.zip out).all fun (x, y) =>
+      let mask := (x.zip y).map fun (a, b) => rmOne || a.toBits != b.toBits
+      let modelOut : List Float := match kind with
+        | "spread" => resample mask y x
+        | _ => gated mask y x        -- `x + delta` with delta := the observed difference
+      bitsEq modelOut y && maskLegal rmZero rmOne mask x.length &&
+      (x.zip (y.zip mask)).all fun (a, b, m) =>
+        !m || (match kind with
+          | "uniform" => (b - a).abs ≤ p1 * (1 + 1e-12) + 1e-300
+          | "spread" => p1 ≤ b && b < p2
+          | _ => true)
+    let cls := if !shape then "dimension"
+      else if rmZero && !((inp.zip out).all fun (x, y) => bitsEq x y) then "rate-zero-changed"
+      else if !allUneval ev then "evaluated" else "-"
+    (shape && perSol && h == 1 && allUneval ev, cls)
+
+def bitMutation (kind : String) (p rm : Float) (inp : List (List Bool)) (impl : Impl (List Bool)) : Verdict :=
+  let valid := unit01 rm && (kind == "bitflip" || unit01 p)
+  guarded valid (!unit01 rm) impl fun h ev out =>
+    let shape := sameShape inp out
+    let rmZero := rm == 0.0
+    let rmOne := rm == 1.0
+    let perSol := (inp.zip out).all fun (x, y) =>
+      let mask := (x.zip y).map fun (a, b) => (rmOne && kind != "bitflip") || a != b
+      let modelOut := if kind == "bitflip" then bitFlip mask x else resample mask y x
+      modelOut == y && maskLegal rmZero rmOne mask x.length &&
+      (kind == "bitflip" || ((y.zip mask).all fun (b, m) => !m || ((p != 0.0 || !b) && (p != 1.0 || b))))
+    let cls := if !shape then "dimension"
+      else if rmZero && inp != out then "rate-zero-changed"
+      else if !allUneval ev then "evaluated" else "-"
+    (shape && perSol && h == 1 && allUneval ev, cls)
+
+-- ---------------------------------------------------------------- permutation mutations
+/-- Source positions: `σ[k]` = where the element now at `k` was (unique tags). -/
+def sourcePositions (inp out : List Nat) : List Nat := out.map fun t => inp.idxOf t
+
+/-- The moved positions as one cycle `i_0 → i_1 → …` (element at `i_k` went to `i_{k+1}`). -/
+def recoverCycle (inp out : List Nat) (k : Nat) : List Nat :=
+  match (List.range inp.length).find? (fun p => inp[p]! != out[p]!) with
+  | none => []
+  | some p0 =>
+    (List.range k).foldl (fun acc _ =>
+      match acc.getLast? with
+      | some p => acc ++ [out.idxOf inp[p]!]
+      | none => acc) [p0] |>.take k
+
+def permClass (inp out : List (List Nat)) (ev : List Bool) : String :=
+  if !sameShape inp out then "dimension"
+  else if !((inp.zip out).all fun (x, y) => y.isPerm x) then "not-permutation"
+  else if !allUneval ev then "evaluated" else "-"
+
+def permMutation (kind : String) (k : Nat) (rm : Float) (inp : List (List Nat)) (impl : Impl (List Nat)) : Verdict :=
+  let dim := (inp.head?.map List.length).getD 0
+  match kind with
+  | "swap" =>
+    let ctorOk := decide (2 ≤ k)
+    match impl with
+    | .err "ctor" => verdict (!ctorOk) (!ctorOk) "err" (.atom "ctor-err")
+    | _ =>
+      let execErr := ctorOk && !inp.isEmpty && decide (dim < k)
+      let valid := ctorOk && !execErr
+      guarded valid (execErr || !ctorOk) impl fun h ev out =>
+        let perSol := (inp.zip out).all fun (x, y) =>
+          let w := recoverCycle x y k
+          swapLegal k x.length w && (match swapMutation k x w with | .ok r => r == y | _ => false)
+        (sameShape inp out && perSol && h == 1 && allUneval ev, permClass inp out ev)
+  | "scramble" =>
+    let valid := unit01 rm
+    guarded valid (!valid) impl fun h ev out =>
+      let perSol := (inp.zip out).all fun (x, y) =>
+        let σ := sourcePositions x y
+        scrambleLegal (rm == 0.0) x.length σ && scrambleMutation x σ == some y
+      let cls := permClass inp out ev
+      let cls := if cls == "-" && rm == 0.0 && inp != out then "rate-zero-changed" else cls
+      (sameShape inp out && perSol && h == 1 && allUneval ev, cls)
+  | "inversion" =>
+    guarded true false impl fun h ev out =>
+      let perSol := (inp.zip out).all fun (x, y) =>
+        let n := x.length
+        let cands : List (Option (Nat × Nat)) :=
+          none :: ((List.range n).flatMap fun s => (List.range n).map fun e => some (s, e))
+        cands.any fun w => inversionLegal n w && inversionMutation x w == some y
+      (sameShape inp out && perSol && h == 1 && allUneval ev, permClass inp out ev)
+  | "insertion" =>
+    guarded true false impl fun h ev out =>
+      let perSol := (inp.zip out).all fun (x, y) =>
+        let n := x.length
+        ((List.range n).flatMap fun el => (List.range n).map fun i => (el, i)).any fun w =>
+          insertionLegal n w && insertionMutation x w == some y
+      (sameShape inp out && perSol && h == 1 && allUneval ev, permClass inp out ev)
+  | _ =>
+    guarded true false impl fun h ev out =>
+      let perSol := (inp.zip out).all fun (x, y) =>
+        let n := x.length
+        let cands : List (Option (Nat × Nat × Nat)) :=
+          none :: ((List.range n).flatMap fun s => (List.range n).flatMap fun e =>
+            (List.range (n + 1)).map fun i => some (s, e, i))
+        cands.any fun w => translocationLegal n w && translocationMutation x w == some y
+      (sameShape inp out && perSol && h == 1 && allUneval ev, permClass inp out ev)
+
+-- ---------------------------------------------------------------- recombination frame
+/-- Explains the output population pair by pair. `accept p1 p2 c1 c2?` decides whether the
+child(ren) are acceptable offspring of the pair; returns the crossed-flags. -/
+def parseFrame {σ : Type} [BEq σ] (accept : σ → σ → σ → Option σ → Bool) (both mustCross mustNot : Bool) :
+    List σ → List σ → Option (List Bool)
+  | p1 :: p2 :: rest, out =>
+    let uncrossed : Option (List Bool) :=
+      if mustCross then none else
+      match out with
+      | o1 :: o2 :: out' =>
+        if o1 == p1 && o2 == p2 then (parseFrame accept both mustCross mustNot rest out').map (false :: ·) else none
+      | _ => none
+    match uncrossed with
+    | some r => some r
+    | none =>
+      if mustNot then none
+      else if both then
+        match out with
+        | c1 :: c2 :: out' =>
+          if accept p1 p2 c1 (some c2) then (parseFrame accept both mustCross mustNot rest out').map (true :: ·) else none
+        | _ => none
+      else
+        match out with
+        | c1 :: out' =>
+          if accept p1 p2 c1 none then (parseFrame accept both mustCross mustNot rest out').map (true :: ·) else none
+        | _ => none
+  | [p], [o] => if o == p then some [] else none
+  | [], [] => some []
+  | _, _ => none
+
+def natsChildOk (c : List Nat) (c2 : Option (List Nat)) (m : Option (List Nat × List Nat)) : Bool :=
+  match m with
+  | some (d1, d2) => d1 == c && (match c2 with | some x => x == d2 | none => true)
+  | none => false
+
+/-- Property-level acceptance for gene-moving crossovers: parents' length, every position one of
+the two parental genes, both conserved when both children are inserted. -/
+def genesOk (p1 p2 c1 : List Nat) (c2 : Option (List Nat)) : Bool :=
+  match c2 with
+  | some c2 => genesConserved p1 p2 c1 c2
+  | none => c1.length == p1.length && p1.length == p2.length &&
+      (List.range p1.length).all fun i => c1[i]! == p1[i]! || c1[i]! == p2[i]!
+
+def recNat (kind : String) (n : Nat) (pc : Float) (both zero : Bool) (inp : List (List Nat))
+    (impl : Impl (List Nat)) : Verdict :=
+  let dim := (inp.head?.map List.length).getD 0
+  let pairs := inp.length / 2
+  let valid := kind != "npoint" || (decide (1 ≤ n) && decide (n < dim)) || pairs == 0
+  let mustCross := zero && pc ≥ 0.0 || pc ≥ 1.0
+  let mustNot := !mustCross && pc ≤ 0.0
+  let modelAccept : List Nat → List Nat → List Nat → Option (List Nat) → Bool := fun p1 p2 c1 c2 =>
+    match kind with
+    | "npoint" =>
+      let mask := (c1.zip p2).map fun (a, b) => a == b
+      let cuts := (List.range mask.length).filter fun i =>
+        mask[i]! != (if i == 0 then false else mask[i - 1]!)
+      cuts.length == min n (min p1.length p2.length) && natsChildOk c1 c2 (multiPointCrossover p1 p2 cuts)
+    | "uniform" =>
+      let mask := (c1.zip p2).map fun (a, b) => a == b
+      natsChildOk c1 c2 (uniformCrossover p1 p2 mask)
+    | _ => natsChildOk c1 c2 (cycleCrossover p1 p2)
+  match impl with
+  | .err _ => verdict false false "err" (.atom "ok")
+  | .panic =>
+    -- only a crossover helper contract can panic: NPoint with n = 0 or n ≥ dim, when a pair is crossed
+    let canPanic := kind == "npoint" && !(decide (1 ≤ n) && decide (n < dim)) && pairs > 0 && !mustNot
+    verdict canPanic (!valid) "panic" (.atom (if canPanic then "panic" else "ok"))
+  | .ok h ev out =>
+    let m := parseFrame modelAccept both mustCross mustNot inp out
+    let propAccept : List Nat → List Nat → List Nat → Option (List Nat) → Bool := fun p1 p2 c1 c2 =>
+      genesOk p1 p2 c1 c2 &&
+      (kind != "cycle" || (c1.isPerm p1 && (match c2 with | some c => c.isPerm p1 | none => true)))
+    -- the property: probability 0 never crosses, probability 1 always does
+    let q := parseFrame propAccept both (pc ≥ 1.0) (pc ≤ 0.0) inp out
+    let cls :=
+      if q.isSome then (if allUneval ev then "-" else "evaluated")
+      else if pc ≤ 0.0 && (parseFrame propAccept both false false inp out).isSome then "crossed-at-pc0"
+      else if (parseFrame (fun _ _ _ _ => true) both false false inp out).isSome then "wrong-value"
+      else "count"
+    verdict (m.isSome && h == 1 && allUneval ev) (cls == "-" || !valid) cls
+      (match m with | some fl => .list (fl.map ofBool) | none => .atom "unexplained")
+
+def aeq (x y : Float) : Bool := (x - y).abs ≤ 1e-9 * (1 + max x.abs y.abs)
+
+def recArith (pc : Float) (both zero : Bool) (inp : List (List Float)) (impl : Impl (List Float)) : Verdict :=
+  let mustCross := zero && pc ≥ 0.0 || pc ≥ 1.0
+  let mustNot := !mustCross && pc ≤ 0.0
+  let beq : BEq (List Float) := ⟨bitsEq⟩
+  let modelAccept : List Float → List Float → List Float → Option (List Float) → Bool := fun p1 p2 c1 c2 =>
+    let alphas := (c1.zip (p1.zip p2)).map fun (c, a, b) => if a == b then 0.5 else (c - b) / (a - b)
+    alphas.all (fun t => -1e-9 ≤ t && t ≤ 1 + 1e-9) &&
+    (match arithmeticCrossover p1 p2 alphas with
+     | some (d1, d2) =>
+       d1.length == c1.length && (d1.zip c1).all (fun (x, y) => aeq x y) &&
+       (match c2 with
+        | some c2 => d2.length == c2.length && (d2.zip c2).all (fun (x, y) => aeq x y)
+        | none => true)
+     | none => false)
+  let propAccept : List Float → List Float → List Float → Option (List Float) → Bool := fun p1 p2 c1 c2 =>
+    let inHull := fun (c : List Float) =>
+      c.length == p1.length && p1.length == p2.length &&
+      (c.zip (p1.zip p2)).all fun (x, a, b) => min a b - 1e-9 ≤ x && x ≤ max a b + 1e-9
+    inHull c1 && (match c2 with
+      | some c2 => inHull c2 && (c1.zip (c2.zip (p1.zip p2))).all fun (x, y, a, b) => aeq (x + y) (a + b)
+      | none => true)
+  match impl with
+  | .err _ => verdict false false "err" (.atom "ok")
+  | .panic => verdict false false "panic" (.atom "ok")
+  | .ok h ev out =>
+    let m := @parseFrame _ beq modelAccept both mustCross mustNot inp out
+    let q := @parseFrame _ beq propAccept both (pc ≥ 1.0) (pc ≤ 0.0) inp out
+    let cls :=
+      if q.isSome then (if allUneval ev then "-" else "evaluated")
+      else if pc ≤ 0.0 && (@parseFrame _ beq propAccept both false false inp out).isSome then "crossed-at-pc0"
+      else if (@parseFrame _ beq (fun _ _ _ _ => true) both false false inp out).isSome then "wrong-value"
+      else "count"
+    verdict (m.isSome && h == 1 && allUneval ev) (cls == "-") cls
+      (match m with | some fl => .list (fl.map ofBool) | none => .atom "unexplained")
+
+-- ---------------------------------------------------------------- differential evolution
+def popAeq (a b : List (List Float)) : Bool :=
+  a.length == b.length && (a.zip b).all fun (x, y) => x.length == y.length && (x.zip y).all fun (u, v) => aeq u v
+
+def deMut (y : Nat) (f : Float) (inp : List (List Float)) (impl : Impl (List Float)) : Verdict :=
+  let ctorOk := deCtorOk y (0.0 ≤ f && f ≤ 2.0)
+  let documented := (y == 1 || y == 2) && 0.0 < f && f ≤ 2.0
+  match impl with
+  | .err "ctor" => verdict (!ctorOk) (!documented) "err" (.atom "ctor-err")
+  | .panic => verdict false (!documented) "panic" (.atom "-")
+  | .err _ =>
+    let formatOk := inp.length % (y * 2 + 1) == 0
+    let m := deMutation y f inp
+    verdict (ctorOk && (match m with | .err => true | _ => false)) (!documented || !formatOk) "err" (.atom "err")
+  | .ok h ev out =>
+    let formatOk := inp.length % (y * 2 + 1) == 0
+    let m := deMutation y f inp
+    let agree := ctorOk && h == 1 && allUneval ev && (match m with | .ok r => popAeq r out | _ => false)
+    let dim := (inp.head?.map List.length).getD 0
+    let cls := if !formatOk then "accepted-bad-format"
+      else if out.length != inp.length / (y * 2 + 1) then "count"
+      else if out.any (·.length != dim) then "dimension"
+      else if !allUneval ev then "evaluated" else "-"
+    verdict agree (cls == "-" || !documented) cls (match m with | .ok r => .list (r.map ofFloats) | _ => .atom "err")
+
+def deCx (kind : String) (pc : Float) (dim : Nat) (pops : List (List (List Float))) (impl : Impl (List Float)) : Verdict :=
+  match pops with
+  | [base, mutants] =>
+    match impl with
+    | .err _ => verdict false false "err" (.atom "ok")
+    | .panic => verdict false false "panic" (.atom "ok")
+    | .ok h ev out =>
+      let pcZero := pc ≤ 0.0
+      let pcOne := pc ≥ 1.0
+      let shape := sameShape mutants out
+      let k := min mutants.length base.length
+      let paired := ((mutants.zip base).zip out).all fun ((m, b), o) =>
+        let mask := (o.zip b).map fun (x, y) => x.toBits == y.toBits
+        let legal := if kind == "bin" then deBinLegal pcZero pcOne dim mask else deExpLegal pcZero pcOne dim mask
+        legal && (match deCross dim mask m b with | some r => bitsEq r o | none => false)
+      let extras := ((mutants.drop k).zip (out.drop k)).all fun (m, o) => bitsEq m o
+      let positionwise := ((mutants.zip base).zip out).all fun ((m, b), o) =>
+        (o.zip (m.zip b)).all fun (x, u, v) => x.toBits == u.toBits || x.toBits == v.toBits
+      let cls := if !shape then "dimension" else if h != 2 then "stack"
+        else if !(positionwise && extras) then "wrong-value"
+        else if !allUneval ev then "evaluated" else "-"
+      verdict (shape && paired && extras && h == 2 && allUneval ev) (cls == "-") cls (.atom "ok")
+  | _ =>
+    -- fewer than two populations: binomial returns Err, exponential panics (`pop()` / `current()`)
+    let expected : String := if kind == "bin" then "err" else "panic"
+    let got : String := match impl with | .err _ => "err" | .panic => "panic" | .ok _ _ _ => "ok"
+    verdict (expected == got) true "-" (.atom expected)
+
+def component (tag : String) (args : List Sexp) (impl : Sexp) : Option Verdict :=
+  match tag, args with
+  | "mut-normal", [p1, rm, _, pop] => do
+    pure (realMutation "normal" (← float? p1) 0 (← float? rm) (← popOf floats? pop) (← parseImpl floats? impl))
+  | "mut-uniform", [p1, rm, _, pop] => do
+    pure (realMutation "uniform" (← float? p1) 0 (← float? rm) (← popOf floats? pop) (← parseImpl floats? impl))
+  | "mut-spread", [lo, hi, rm, _, pop] => do
+    pure (realMutation "spread" (← float? lo) (← float? hi) (← float? rm) (← popOf floats? pop) (← parseImpl floats? impl))
+  | "mut-bitflip", [p, rm, _, pop] => do
+    pure (bitMutation "bitflip" (← float? p) (← float? rm) (← popOf bools? pop) (← parseImpl bools? impl))
+  | "mut-bits", [p, rm, _, pop] => do
+    pure (bitMutation "bits" (← float? p) (← float? rm) (← popOf bools? pop) (← parseImpl bools? impl))
+  | "pmut-swap", [k, _, pop] => do
+    pure (permMutation "swap" (← nat? k) 0 (← popOf nats? pop) (← parseImpl nats? impl))
+  | "pmut-scramble", [rm, _, pop] => do
+    pure (permMutation "scramble" 0 (← float? rm) (← popOf nats? pop) (← parseImpl nats? impl))
+  | "pmut-inversion", [_, _, pop] => do
+    pure (permMutation "inversion" 0 0 (← popOf nats? pop) (← parseImpl nats? impl))
+  | "pmut-insertion", [_, _, pop] => do
+    pure (permMutation "insertion" 0 0 (← popOf nats? pop) (← parseImpl nats? impl))
+  | "pmut-transloc", [_, _, pop] => do
+    pure (permMutation "transloc" 0 0 (← popOf nats? pop) (← parseImpl nats? impl))
+  | "rec-npoint", [n, pc, both, seed, pop] => do
+    pure (recNat "npoint" (← nat? n) (← float? pc) (← bool? both) (isZeroRng seed) (← popOf nats? pop) (← parseImpl nats? impl))
+  | "rec-uniform", [_, pc, both, seed, pop] => do
+    pure (recNat "uniform" 0 (← float? pc) (← bool? both) (isZeroRng seed) (← popOf nats? pop) (← parseImpl nats? impl))
+  | "rec-cycle", [_, pc, both, seed, pop] => do
+    pure (recNat "cycle" 0 (← float? pc) (← bool? both) (isZeroRng seed) (← popOf nats? pop) (← parseImpl nats? impl))
+  | "rec-arith", [_, pc, both, seed, pop] => do
+    pure (recArith (← float? pc) (← bool? both) (isZeroRng seed) (← popOf floats? pop) (← parseImpl floats? impl))
+  | "demut", [y, f, pop] => do
+    pure (deMut (← nat? y) (← float? f) (← popOf floats? pop) (← parseImpl floats? impl))
+  | "decx", .atom kind :: pc :: _ :: dim :: pops => do
+    pure (deCx kind (← float? pc) (← nat? dim) (← pops.mapM (popOf floats?)) (← parseImpl floats? impl))
+  | _, _ => none
 
 def c13 (input implOut : Sexp) : Option Verdict :=
   match input with
